@@ -59,7 +59,7 @@ RULE = (
     "referee system under drawn value-preserving transformations (independent per-question answer permutations for "
     "Alice and Bob, question permutations, player exchange, referee basis change, conjugation, zero-operator answer "
     "padding).  A game case is non-trivial when the best pair of answer functions beats every constant answer pair by "
-    "> 1e-3, or A != B, or it is a named game whose transformation relabels the two players' answers differently.  "
+    "> 1e-3, or A != B, or it is a named game whose transformation relabels answers per question or pads them (so that it is no longer won by constant equal answers).  "
     "Hedging: Q PSD 4^n x 4^n of drawn rank (real / complex), the documented Q(alpha,theta) family (optionally "
     "rotated by local unitaries) and Q (x) Q for n = 2; non-trivial when rank >= 2.  Cloning: 1..4 qubit kets as (2,1) "
     "arrays (or pure density matrices), exact dyadic priors, reps 1..2, single state / orthogonal pair / Wiesner / "
@@ -213,7 +213,7 @@ def nt_game(case):
             labels.append("fn>const")
     else:
         if H.tf_breaks_answer_symmetry(case["tf"]):
-            labels.append("answers-relabelled-differently")
+            labels.append("answers-relabelled-or-padded")
     if na != nb:
         labels.append("A!=B")
     if not labels:
